@@ -84,6 +84,9 @@ def plan_graphs(rng, spec, exotic):
         lcfg = gcontent.LayoutCfg(p_align=r.pick([0.0, 0.0, 0.3]))
         tree = gcontent.layout_tree(r.sub('layout'), c, spec, lcfg)
         meta = gtext.gen_metadata(r.sub('meta'), exotic=exotic)
+        if rng.sub('huge', i).chance(0.004):
+            # more than 64 Ki characters in one text (implementations switch strategy at such sizes)
+            meta = meta + [['huge', ('z' + str(r.randrange(10)) + ' ') * (22000 + r.randrange(300)) + 'end']]
         if big and i == n // 2:
             # a long comment line so that the text crosses the 8 KiB buffer / chunk size at a seeded offset
             meta = meta + [['long', ('w' + str(r.randrange(10)) + ' ') * (2650 + r.randrange(120)) + 'end']]
@@ -127,6 +130,7 @@ def plan(rng, idx, tier):
     containers = sorted(crng.sample(CONTAINERS, k), key=CONTAINERS.index)
     t = {
         'property': ID, 'mode': mode, 'model': spec, 'graphs': graphs, 'style': style,
+        'debug_logging': rng.sub('dbg').chance(0.08),
         'newline': newline, 'mixseed': srng.randrange(1 << 30), 'containers': containers,
         'encoding': crng.weighted([('utf-8', 8), ('utf-16', 1)]),
         'read_plan': io_plan(rng.sub('rio'), rng.sub('rio?').chance(0.75)),
@@ -213,6 +217,20 @@ def _reader(fs, path, trace, plan_d, newline=None, encoding=None):
 # execution
 
 def execute(trace):
+    import logging
+    if not trace.get('debug_logging'):
+        return _execute(trace)
+    lg = logging.getLogger('penman')
+    lg.setLevel(logging.DEBUG)        # no handler needed: the code asks isEnabledFor(DEBUG)
+    try:
+        r = _execute(trace)
+        r.hit('probe.debug_logging')
+        return r
+    finally:
+        lg.setLevel(logging.ERROR)
+
+
+def _execute(trace):
     import penman
     res = RunResult()
     k = simio.Counters()
